@@ -209,6 +209,9 @@ def execute(case, result):
         t = pool.peek()["demand"]
         if r in (INF, -INF) or t in (INF, -INF):
             return
+        if r != r or t != t:
+            bad("read-back %r / target demand %r is not a number although only finite demands were written" % (r, t))
+            return
         if not abs(Fraction(r) - Fraction(t)) < g:
             bad("read-back %r is a granule or more away from target demand %r" % (r, t))
         result.count("reads_checked")
